@@ -123,12 +123,15 @@ pub fn judge(p: &Program, well_kinded: bool) -> Outcome {
             let idoc = doc::extract(&y);
             match doc::compare(&idoc, rdoc) {
                 Ok(()) => Outcome::ok("document equals reference", Some(hash_of(&yaml))),
-                Err(msg) => Outcome::bad(
-                    "differs",
-                    format!("document differs | {}", diff_class(&msg)),
-                    msg,
-                    case(),
-                ),
+                Err(msg) => {
+                    let notes = refsem::last_notes();
+                    let sig = if notes.is_empty() {
+                        format!("document differs | {}", diff_class(&msg))
+                    } else {
+                        format!("document differs | {} | program has {}", diff_class(&msg), notes.join(" and "))
+                    };
+                    Outcome::bad("differs", sig, msg, case())
+                }
             }
         }
     }
